@@ -634,3 +634,12 @@ func lemmaOriginRoundTrip(p []byte) ([]byte, int) {
 //@   callpre NewOrigin(p0): sameslice(p0, bytesOf(seq))
 //@   callpre WriteSeq(self, s0): self.w == w.w && is(s0, GenBank) && (is(seq, *GenBank) ==> s0.(GenBank).Origin == seq.(*GenBank).Origin && sameslice(s0.(GenBank).Table, seq.(*GenBank).Table)) && (!is(seq, *GenBank) ==> is(infoOf(seq), GenBankFields) && sameslice(s0.(GenBank).Table, featsOf(seq)) && s0.(GenBank).Fields.Accession == infoOf(seq).(GenBankFields).Accession && s0.(GenBank).Fields.Region == infoOf(seq).(GenBankFields).Region && !isnil(s0.(GenBank).Origin))
 //@   decreases ite(is(seq, GenBank), 0, 1)
+
+// AutoWriter: the writer is chosen from the sequence itself (detectWriter) and gets the same
+// sequence to write.
+//@ func (w AutoWriter) WriteSeq(seq gts.Sequence) (n int, err error)
+//@   prop C17 C01
+//@   requires (is(seq, *Fasta) ==> !isnil(seq.(*Fasta))) && (is(seq, *GenBank) ==> !isnil(seq.(*GenBank)))
+//@   requires !is(seq, GenBank) && !is(seq, *GenBank) ==> len(bytesOf(seq)) < 999999940
+//@   callpre detectWriter(s0, w0): s0 == seq && w0 == w.w
+//@   callpre WriteSeq(s0): s0 == seq
